@@ -263,6 +263,7 @@ type FuncResult struct {
 	Ints        string
 	Err         error
 	ModelVars   []ModelVar
+	Replay      *replaySpec
 }
 
 func (v *Verifier) newCtx(fn *ssa.Function, con *Contract) *FuncCtx {
@@ -332,6 +333,7 @@ func (v *Verifier) verifyFunc(fn *ssa.Function, con *Contract) (res *FuncResult)
 		}
 	}
 	fr.setReach(tTrue)
+	res.Replay = c.buildReplaySpec(fr, st)
 	// requires: assumed
 	ec := fr.evalCtx(st, st, fn.Pos())
 	ec.entryPar = true
